@@ -25,7 +25,7 @@ from fractions import Fraction
 import numpy as np
 
 from . import exact as X
-from .c18_geom import (St, attach_tags, bnd_geo, hex_faces_planar, index_problems, lib_is_valid, measure_of,
+from .c18_geom import (St, attach_tags, bnd_geo, consistently_oriented, hex_faces_planar, index_problems, lib_is_valid, measure_of,
                        own_validity, quad_signed, quad_strictly_convex, simplex_signed, sub_geo, tag_arrays,
                        tag_kinds, wedge_faces_planar)
 from .gen import meshes as G
@@ -1149,7 +1149,9 @@ def op_smoothed(ctx, rng, old):
     ctx.check("shared-vertex-structure", np.array_equal(np.asarray(new_mesh.t), np.asarray(m.t)),
               mech=f"{op}:connectivity-changed", **info)
     # signed measure is a function of the boundary only: with all boundary vertices fixed it is invariant
-    if bverts <= fx and old.kind in ("tri", "tet", "quad") and pn.shape == pold.shape:
+    # (pitfall: Laplacian smoothing may fold a mesh over itself while every cell keeps a non-zero measure; the
+    # invariance needs cells on opposite sides of each shared facet, decided combinatorially)
+    if bverts <= fx and old.kind in ("tri", "tet", "quad") and pn.shape == pold.shape and consistently_oriented(old):
         signed = simplex_signed if old.kind != "quad" else quad_signed
         tot_old = tot_new = F(0)
         for c in range(old.nt):
@@ -1174,7 +1176,7 @@ def op_smoothed(ctx, rng, old):
     if moved:
         ctx.nontrivial(op, old.cls, mode, tag_kinds(osub, obnd))
     probs = own_validity(new, need_measure=True)
-    if probs:
+    if probs or (old.kind in ("tri", "tet", "quad") and not consistently_oriented(new)):
         ctx.drop("smoothing-folded-or-flattened-a-cell")   # Laplacian smoothing does not promise validity
         return None
     return new
